@@ -75,8 +75,21 @@ def _bool(f):
     return lambda a, b: f(_sym(a), _l(b))
 
 
+def _add(*xs):
+    """sum in which -inf and conditionals with a -inf branch are kept structured: -inf + x = -inf, Cond(c,a,b) + x = Cond(c,a+x,b+x)"""
+    vals = [_l(x) if not isinstance(x, Cond) else x for x in xs]
+    if any(isinstance(v, NegInf) for v in vals):
+        return NegInf()
+    conds = [v for v in vals if isinstance(v, Cond)]
+    if not conds:
+        return core.sym_sum(vals)
+    c0 = conds[0]
+    rest = [v for v in vals if v is not c0]
+    return Cond(c0.c, _add(c0.a, *rest), _add(c0.b, *rest))
+
+
 SCALAR = {
-    "add": lambda *xs: core.sym_sum([_l(x) for x in xs]),
+    "add": _add,
     "sub": lambda a, b: _sym(a) - _l(b),
     "mul": lambda *xs: _prod(xs),
     "true_div": lambda a, b: _sym(a) / _l(b),
@@ -102,6 +115,13 @@ SCALAR = {
     "cast": lambda a: _l(a),
     "switch": lambda c, a, b: _ite(c, a, b),
     "clip": lambda x, lo, hi: core.ite(_sym(x) < _l(lo), _l(lo), core.ite(_sym(x) > _l(hi), _l(hi), _l(x))),
+    # symbolic reals are finite (non-finite values appear only as the structured NegInf marker)
+    "isnan": lambda a: False,
+    "isinf": lambda a: isinstance(_l(a), NegInf),
+    "sgn": lambda a: core.ite(_sym(a) > 0, 1, core.ite(_sym(a) < 0, -1, 0)),
+    "expm1": lambda a: core.uf("EXP", a) - 1,
+    "log2": lambda a: core.uf("LOG", a) / core.uf("LOG", 2),
+    "reciprocal": lambda a: 1 / _sym(a),
     "maximum": lambda a, b: core.sym_max([_l(a), _l(b)]),
     "minimum": lambda a, b: core.sym_min([_l(a), _l(b)]),
 }
